@@ -137,7 +137,7 @@ U('dyn_pairwise_merge', fam_dyn, 'Dyn_pairwise_merge', ['C15', 'C05', 'C17'], in
   assumptions=[DYN_NOTE, 'quick tier: at most 4 used levels above the buffer (NLEV=4); the thorough tier runs the same contract with NLEV=32 = the size of the levels vector (unit dyn_pairwise_merge_full)', 'size accounting of the merge cascade (lemma_merge_fits) is established by insert (proved there as the C15 capacity assertion)'])
 U('dyn_pairwise_merge_full', fam_dyn, 'Dyn_pairwise_merge', ['C15', 'C05', 'C17'], thorough_only_props=['C15', 'C05', 'C17'], inline=['Dyn_level', 'Dyn_pgm', 'Dyn_has_pgm', 'Dyn_max_fully_allocated_level'],
   assumed=['Dyn_merge', 'pgmv_copy_Item', 'PGMType_build'], decls=['dyn_ghost', 'dyn_merge_ghost', 'dyn_mergeview'], lemmas=['lemma_merge_fits'],
-  insts=DYN_Q, thorough_insts=DYN_ALL, spec=('dyn.spec',), timeout=3000, partition=16, mem_gb=12, defines=['NLEV=32'], solver='kissat',
+  insts=DYN_Q, spec=('dyn.spec',), timeout=3000, partition=16, mem_gb=12, defines=['NLEV=32'], solver='kissat',
   assumptions=[DYN_NOTE, 'levels enumerated: NLEV=32 = the size of the levels vector', 'size accounting of the merge cascade (lemma_merge_fits) is established by insert (proved there as the C15 capacity assertion)'])
 
 
@@ -172,7 +172,7 @@ U('bucketing_segment_for_key', fam_ef, 'Bucketing_segment_for_key', ['C09', 'C16
 
 
 U('bucketing_build_top_level', fam_ef, 'Bucketing_build_top_level', ['C09', 'C17', 'C20'], decls=['ef_ghost', 'bucketing_ghost', 'bucketing_builder'],
-  lemmas=['IntVector_make', 'IntVector_set'], macros=fam_ef.MACROS + [(fam_ef.HPP, 'CEIL_INT_DIV')], insts=BK_Q[:1], thorough_insts=BK_Q, spec=('ef.spec',),
+  lemmas=['IntVector_make', 'IntVector_set'], macros=fam_ef.MACROS + [(fam_ef.HPP, 'CEIL_INT_DIV')], insts=BK_Q[:1], spec=('ef.spec',),
   cases=[('BK_T', str(1 << e)) for e in range(1, 13)], timeout=900, mem_gb=8,
   assumptions=['proved per concrete power-of-two TopLevelSize in {2,4,...,4096} (constant step); the division variant is not attempted (S.6)',
                'sdsl::int_vector construction / cell write replaced by assumed contracts over a witness cell [A]; segment keys strictly increasing (lemma, established by build)'])
@@ -250,7 +250,7 @@ U('dyn_merge', fam_dyn, 'Dyn_merge', ['C05', 'C17'], inline=['Item_deleted'], as
   lemmas=['lemma_strict2', 'lemma_absent2'], insts=DYN_Q, thorough_insts=DYN_ALL, spec=('dyn.spec',), timeout=1500, partition=16, mem_gb=10, solver='kissat', cases=[('PGMV_CASE', '0'), ('PGMV_CASE', '2')],
   assumptions=[DYN_NOTE, 'quick tier: cases 0 (both runs non-empty, second run from index 0) and 2 (an empty run); case 1 (second run a proper slice, as range() calls it) needs 20 min and runs in the thorough tier as unit dyn_merge_slice', 'range std::move / std::copy replaced by an element-wise copy contract [A]', 'the first run and the output start at index 0 (as in pairwise_merge and range()); the second run may be a slice [first2,last2)'])
 U('dyn_merge_slice', fam_dyn, 'Dyn_merge', ['C05', 'C17'], thorough_only_props=['C05', 'C17'], inline=['Item_deleted'], assumed=['pgmv_copy_Item'], decls=['dyn_ghost', 'dyn_mergeview'],
-  lemmas=['lemma_strict2', 'lemma_absent2'], insts=DYN_Q, thorough_insts=DYN_ALL, spec=('dyn.spec',), timeout=3000, partition=16, mem_gb=10, solver='kissat', cases=[('PGMV_CASE', '1')],
+  lemmas=['lemma_strict2', 'lemma_absent2'], insts=DYN_Q, spec=('dyn.spec',), timeout=3000, partition=16, mem_gb=10, solver='kissat', cases=[('PGMV_CASE', '1')],
   assumptions=[DYN_NOTE, 'range std::move / std::copy replaced by an element-wise copy contract [A]', 'the first run and the output start at index 0 (as in pairwise_merge and range()); the second run may be a slice [first2,last2)'])
 
 
@@ -283,3 +283,10 @@ U('mapped_roundtrip', fam_mapped, 'pgmv_harness', ['C12', 'C17'], inline=['Mappe
   assumptions=['harness proof, not a per-function contract: a ghost harness calls the two real bodies (serialize_and_map, then the loading constructor) on fully symbolic inputs and asserts the round trip; the key loop is closed by its loop contract, everything else is loop-free',
                'std::fstream read/write/seekp and mmap are replaced by stub bodies over a two-offset file model [A]: the file is observed at two universally quantified offsets; header writes do not partially overlap',
                'the element bytes of the two vectors and the construction paths before serialize_and_map (build, first_key, n) are outside this unit: bounded link mapped_files_link'])
+
+U('dyn_range', fam_dyn, 'Dyn_range', ['C06', 'C20', 'C17'], thorough_only_props=['C06', 'C20', 'C17'], inline=['Item_deleted', 'Dyn_level', 'Dyn_pgm', 'Dyn_has_pgm'], stubs=['Dyn_lower_bound_bl', 'Dyn_merge'],
+  assumed=['PGMType_search'], decls=['dyn_ghost', 'dyn_rank', 'dyn_mergeview', 'dyn_range_ghost'],
+  lemmas=['lemma_strict2', 'lemma_absent2', 'lemma_rank_item', 'lemma_pgm_built', 'lemma_level_pos', 'pgmv_upper_bound_Item'],
+  insts=DYN_Q, spec=('dyn.spec',), timeout=5400, partition=16, mem_gb=10, defines=['NLEV=4', 'PGMV_LOCAL_VEC_CAP', 'FL_MAXSZ=((size_t)1<<30)'],
+  assumptions=[DYN_NOTE, SEARCH_NOTE, 'thorough tier only (about 10 minutes on 16 idle cores, 43 M clauses per obligation group); at most 4 used levels above the buffer (NLEV=4), levels of at most 2^30 entries', 'local vectors are modelled with an arbitrary (symbolic) capacity fixed at construction, so that growing calls never reallocate [A: equivalent to std::vector here: no iterator is held across a growing call]; both loops are closed by loop contracts',
+               'one ghost prophecy variable (which entry of the merged run ends up at the witness result index), resolved by an assume in ghost code: does not restrict the real execution'])
